@@ -584,6 +584,18 @@ def rule_lists(ctx: Ctx):
     inferred = [r for r in rets if sol is not None and (S.m("return domaintuple(acc)", r, sol[0]) is not None or S.m("return domaintuple(sorted(acc))", r, sol[0]) is not None)]
     ok = bool(inferred) and all(r in inferred or S.m("return domaintuple(self._action_list)", r) is not None for r in rets)
     ctx.check(ok, "LIST-1", al, al.node, "inferred action list = union of actions(s) over the state list", "", "inferred action list is not the union of the listed states' actions")
+    # (written after seed C06-d) an explicitly given list lays out the arrays in the order it was given: it is never re-sorted
+    for m_, attr in ((sl, "_state_list"), (al, "_action_list")):
+        holders = {f"{m_.self_name}.{attr}"}
+        for n in ast.walk(m_.node):
+            if isinstance(n, ast.Assign) and len(n.targets) == 1 and isinstance(n.targets[0], ast.Name):
+                v = ast.unparse(n.value).replace('"', "'")
+                if v == f"{m_.self_name}.{attr}" or v.startswith(f"getattr({m_.self_name}, '{attr}'"):
+                    holders.add(n.targets[0].id)
+        resorted = [c for c in ast.walk(m_.node) if isinstance(c, ast.Call) and isinstance(c.func, ast.Name) and c.func.id == "sorted" and c.args
+                    and ast.unparse(c.args[0]) in holders]
+        ctx.check(not resorted, "LIST-1", m_, resorted[0] if resorted else m_.node, f"an explicit {attr} keeps the order it was given in", "",
+                  f"`{norm(resorted[0], 60) if resorted else ''}` re-orders an explicitly supplied list: arrays rebuilt with from_matrices(…, {attr[1:]}=…) come out permuted along that axis")
 
 
 def run(ctx: Ctx):
@@ -603,6 +615,6 @@ def run(ctx: Ctx):
     rule_lists(ctx)
     mods = ("msdm.core.mdp.mdp", "msdm.core.mdp.tabularmdp", "msdm.core.mdp.quickmdp")
     arg_permutation_rule(ctx, G, [f for f in P.all_functions() if f.module.name in mods], "ARG")
-    for r, k in (("TEN-4", 17), ("ZERO-1", 2), ("REACH-1", 1), ("REACH-2", 3), ("REACH-3", 2), ("VEC-1", 7), ("VEC-2", 1), ("FM-1", 25), ("QK-1", 13), ("LIST-1", 3), ("ARG", 5)):
+    for r, k in (("TEN-4", 17), ("ZERO-1", 2), ("REACH-1", 1), ("REACH-2", 3), ("REACH-3", 2), ("VEC-1", 7), ("VEC-2", 1), ("FM-1", 25), ("QK-1", 13), ("LIST-1", 5), ("ARG", 5)):
         ctx.require(r, k)
     ctx.assume("Table._validate_table rejects duplicate coordinates; state/action lists inferred from sets are duplicate-free")
